@@ -70,8 +70,9 @@ def run(out, tier, rng, work):
     out.rule = ('2-3 real J1939-22 stacks under virtual time; 1..10 concurrent transfers (RTS/CTS and BAM) in both directions, sizes on all '
                 'residues mod 60 in 61..20000, window pairs from {1,2,3,7,8,127,254,255,random}, latencies in (0, 5 ms]; every fifth scenario '
                 'starts 7..11 RTS/CTS and 3..6 BAM sessions at one instant (capacity 8 + 4); oracle: exactly-once delivery, refusal exactly '
-                'beyond capacity and without frames; every handler log replayed on the Coq model (Model22); non-trivial = FD.TP frames on the bus')
+                'beyond capacity and without frames; every handler log replayed on the Coq model (Model22); non-trivial = FD.TP frames on the bus'
+                ' Cyclic application timers on the ECUs in a quarter of the scenarios.')
     out.assumptions = ['A1-A6 of DESIGN.md section 3', 'closed-loop FD role theorems are not proved: delivery is covered by correspondence + oracle (testing); proved: segmentation, capacity, allocation freshness, pool invariant steps, inbound neutrality']
     sprop.run_stateful(out, 'C02', tier, rng, work, FILES, gen, oracle, 100, 1500, nontrivial,
-                       sample=lambda sc, res: dict(capacity=sc.get('capacity', False), sends=[(e['a'][1], e['a'][2], e['a'][5]['len']) for e in sc['script']][:6],
+                       sample=lambda sc, res: dict(capacity=sc.get('capacity', False), sends=[(e['a'][1], e['a'][2], e['a'][5]['len']) for e in sc['script'] if e['op'] == 'send'][:6],
                                                    returns=[r for ev, r in res.returns][:14]))
